@@ -48,6 +48,40 @@ def run(tier, seed):
             sig = "C12|%s|%s" % (kind, "reuse" if reuse else "uncovered")
             ck.violation(sig, "real %s counter: %s (event %d of its run) is not allowed by Layer P" % (kind, json.dumps(e), r["at"]),
                          {"behaviour_index": r["run"][0].get("run"), "first_rejected": {"index": r["at"], "event": e}, "run": r["run"][:400]})
+    # end to end: the model's group-counter behaviours projected onto a real node that sends real group messages
+    # through Exchange::initiate_group, is cut off and boots again from the store
+    e2e = []
+    for b in beh:
+        if b.get("kind") != "grp":
+            continue
+        ops, pending = [], 0
+        for o in b["ops"]:
+            if o["op"] == "Boot":
+                if pending: ops.append({"op": "Send", "n": pending}); pending = 0
+                ops.append({"op": "Boot"})
+            elif o["op"] == "Crash":
+                if pending: ops.append({"op": "Send", "n": pending}); pending = 0
+                ops.append({"op": "Crash"})
+            elif o["op"] == "Reserve":
+                pending += 1
+        if pending: ops.append({"op": "Send", "n": pending})
+        if any(o["op"] == "Send" for o in ops):
+            e2e.append({"start": b["start"], "ops": ops})
+    # whole epochs between restarts (the boundary moves), starts next to the wrap
+    for start in (-1, 0, 5, 29, 30, 31):
+        e2e.append({"start": start, "ops": [{"op": "Boot"}, {"op": "Send", "n": 1003}, {"op": "Crash"}, {"op": "Boot"}, {"op": "Send", "n": 2}, {"op": "Crash"},
+                                             {"op": "Boot"}, {"op": "Send", "n": 2100}, {"op": "Crash"}, {"op": "Boot"}, {"op": "Send", "n": 1}]})
+    epath = os.path.join(wd, "behaviours_e2e.ndjson")
+    vlib.write_ndjson(epath, e2e)
+    etrace = os.path.join(wd, "trace_e2e.grp.ndjson")
+    esumm = vlib.harness(["c12e", "--behaviours", epath, "--out", etrace], timeout=3000)
+    st, nr, rej = vlib.validate_runs("C12", "CountersTrace.tla", "CountersTraceGrp.cfg", etrace)
+    states += st; n_runs += nr; n_rej += len(rej)
+    for r in rej:
+        e = r["event"]
+        sig = "C12|grp-e2e|%s" % (e.get("ev"))
+        ck.violation(sig, "real node sending group messages: %s (event %d of its run) is not allowed by Layer P" % (json.dumps(e), r["at"]),
+                     {"behaviour": e2e[r["run_index"]] if r["run_index"] < len(e2e) else None, "first_rejected": {"index": r["at"], "event": e}, "run": r["run"][:400]})
     # binding self-test: re-use a value in the group trace -> must be rejected there
     ev = vlib.read_ndjson(tbase + ".grp.ndjson")
     k = next(i for i, e in enumerate(ev) if e.get("ev") == "Use" and i > 5)
@@ -64,12 +98,13 @@ def run(tier, seed):
         "design_models_exhaustive": True,
         "generator": {"cfg": "GenCounters.cfg", "mode": "tlc -simulate", "schedules": len(beh), "ops_each": 24},
         "replay": summ,
+        "end_to_end_group_counter": {"behaviours": len(e2e), "runs": nr, "replay": esumm, "rejected_runs": len(rej)},
         "trace_validation": {"spec": "CountersTrace.tla (Layer P = CountersProp.tla)", "events": n_events, "states": states, "rejected_runs": n_rej,
                              "rings": {"grp": 2 ** 28, "evt": "none (u64)", "chk": "2^32, values translated by +2^20"}},
         "binding_selftest": {"duplicated_use_at": k + 2, "rejected_at": r2.get("rejected_at"), "ok": True},
         "samples": [beh[0]] + samples,
     })
-    ck.assumptions += ["group counter driven on a real Sessions object through the verif wrapper of reserve_global_group_data_ctr; the harness stores the returned boundary exactly where Exchange::initiate_group does",
+    ck.assumptions += ["group counter: (a) driven on a real Sessions object through the verif wrapper of reserve_global_group_data_ctr with the harness storing the returned boundary where Exchange::initiate_group does (power cuts between reserve, store and use), and (b) end to end through Exchange::initiate_group on a real node sending group messages (power cuts between messages), store and wire observed in their true order",
                        "event numbers through Events::push / load_persist, Check-In counter through the public Icd API with the application protocol its documentation prescribes",
                        "store operations do not fail (store failures are outside the property's quantifier)"]
     return ck.finish()
